@@ -193,8 +193,23 @@ def run(chk):
            "scalar": "float64", "ninputs": 2, "geom": "affine", "label": f"multirule/{cl}/{v}"}
           for k, (cl, v) in enumerate([(cl, v) for cl in ("interval", "triangle", "quadrilateral", "tetrahedron") for v in range(3 if quick else 8)])]
     items += mr
+    items += [{"builder": "harness.corpus.realise_multirule", "mr": {"cell": cl, "variant": 0, "onepoint": True}, "seed": chk.seed * 7 + 50 + k,
+               "scalar": "float64", "ninputs": 1, "geom": "affine", "label": f"multirule/{cl}/onepoint"}
+              for k, cl in enumerate(("interval", "triangle", "quadrilateral", "tetrahedron"))]
+    # requested degree honoured when it is *below* the integrand's degree (incl. degree 0)
+    k = 0
+    for cl in ("interval", "triangle", "quadrilateral", "tetrahedron", "hexahedron"):
+        for q in (0, 1, 2):
+            for rank in ((0, 1) if quick else (0, 1, 2)):
+                if s5.basix_rational_rule(cl, q, "default") is None or (cl == "hexahedron" and rank == 2):
+                    continue
+                items.append({"builder": "harness.corpus.realise_underint", "ui": {"cell": cl, "q": q, "rank": rank, "how": "degree" if k % 2 else "metadata"},
+                              "seed": chk.seed * 11 + k, "scalar": "float64", "ninputs": 1, "geom": "affine",
+                              "label": f"underint/{cl}/degree={q}/rank{rank}"})
+                k += 1
     recs = s5.run_items(chk, items, nworkers=4 if quick else 6)
     nz = s5.report(chk, items, recs)
+    chk.add(underintegrated_cases=sum(1 for (lab, *_r) in nz if lab.startswith("underint/")))
     chk.add(distinct_nontrivial=len(nz) + nzs,
             rule="(1) Chebyshev-product functionals per (cell, degree, scheme), non-trivial = closed form non-zero; "
                  "(2) FormSpace.tla cases with vertex scheme / two rules / quadrature elements / default rule on polynomial integrands and the "
